@@ -1,11 +1,10 @@
 SPECIFICATION Spec
 CONSTANTS
   MaxResp = 3
-  MaxRecv = 6
-  MaxOps = 14
-  Mode = "rich"
-INVARIANT SpentNotEnabled
+  MaxRecv = 3
+  MaxOps = 6
+  Mode = "paths+"
 INVARIANT EachOnce
 INVARIANT OrdConsistent
-PROPERTY SpentNeverFires
 PROPERTY SpecIsLegal
+PROPERTY UntouchedFireOnce
